@@ -222,9 +222,62 @@ fn render(report: &cooklang::error::SourceReport, input: &str, color: bool) -> S
     }
 }
 
-fn fp_result<T: std::fmt::Debug + serde::Serialize>(
+/// What a caller reads out of a result through accessor methods (computed on demand), as opposed
+/// to the stored fields that `Debug` prints.
+trait Accessors {
+    fn accessors(&self, _conv: &Converter) -> String {
+        String::new()
+    }
+}
+
+fn meta_accessors(m: &cooklang::Metadata, conv: &Converter) -> String {
+    format!(
+        "title={:?} description={:?} tags={:?} author={:?} source={:?} time={:?} servings={:?} locale={:?} filtered={}",
+        m.title(),
+        m.description(),
+        m.tags(),
+        m.author().map(|a| (a.name().map(str::to_string), a.url().map(str::to_string))),
+        m.source().map(|a| (a.name().map(str::to_string), a.url().map(str::to_string))),
+        m.time(conv),
+        m.servings(),
+        m.locale(),
+        m.map_filtered().count(),
+    )
+}
+
+impl Accessors for cooklang::Metadata {
+    fn accessors(&self, conv: &Converter) -> String {
+        meta_accessors(self, conv)
+    }
+}
+
+impl Accessors for cooklang::ScalableRecipe {
+    fn accessors(&self, conv: &Converter) -> String {
+        let mut s = meta_accessors(&self.metadata, conv);
+        for i in &self.ingredients {
+            s.push_str(&format!(
+                " | {} m={:?} def={} refd={:?} to={:?}",
+                i.display_name(),
+                i.modifiers(),
+                i.relation.is_definition(),
+                i.relation.referenced_from(),
+                i.relation.references_to()
+            ));
+        }
+        for c in &self.cookware {
+            s.push_str(&format!(" # {} m={:?}", c.display_name(), c.modifiers()));
+        }
+        s.push_str(&format!(" servings={:?}", self.servings()));
+        s
+    }
+}
+
+impl Accessors for cooklang::ast::Ast<'_> {}
+
+fn fp_result<T: std::fmt::Debug + serde::Serialize + Accessors>(
     r: &cooklang::error::PassResult<T>,
     input: &str,
+    conv: &Converter,
 ) -> String {
     // very long inputs (hundreds of KiB): the Debug image alone, which already contains the
     // recipe and every diagnostic - JSON and two renderings would triple the cost
@@ -235,12 +288,27 @@ fn fp_result<T: std::fmt::Debug + serde::Serialize>(
         Some(o) => serde_json::to_string(o).unwrap_or_else(|e| format!("<json error {e}>")),
         None => "null".into(),
     };
+    // accessor views, read twice (a memoising accessor must give the same answer again)
+    let acc = |r: &cooklang::error::PassResult<T>| {
+        format!(
+            "{} | errors={} warnings={} has_errors={} has_warnings={} valid_output={}",
+            r.output().map(|o| o.accessors(conv)).unwrap_or_default(),
+            r.report().errors().count(),
+            r.report().warnings().count(),
+            r.report().has_errors(),
+            r.report().has_warnings(),
+            r.valid_output().is_some(),
+        )
+    };
+    let (a1, a2) = (acc(r), acc(r));
     format!(
-        "valid={} has_output={}\nDEBUG {:?}\nJSON {}\nREPORT\n{}\nREPORT-COLOR\n{}",
+        "valid={} has_output={}\nDEBUG {:?}\nJSON {}\nACCESSORS {}\nACCESSORS-AGAIN-EQUAL {}\nREPORT\n{}\nREPORT-COLOR\n{}",
         r.is_valid(),
         r.has_output(),
         r,
         json,
+        a1,
+        a1 == a2,
         render(r.report(), input, false),
         render(r.report(), input, true),
     )
@@ -348,7 +416,7 @@ pub fn perform(parser: &CooklangParser, input: &str, op: &Op, faults: bool, dept
                 None => parser.parse(input),
                 Some(_) => parser.parse_with_options(input, make_options(cb)),
             };
-            fp_result(&r, input)
+            fp_result(&r, input, parser.converter())
         }),
         OpKind::Parse { via: Via::Adapter, cb, truncate } => {
             adapter_used = true;
@@ -360,7 +428,7 @@ pub fn perform(parser: &CooklangParser, input: &str, op: &Op, faults: bool, dept
                     seen: &seen,
                 };
                 let r = analysis::parse_events(it, input, parser.extensions(), parser.converter(), make_options(cb));
-                fp_result(&r, input)
+                fp_result(&r, input, parser.converter())
             })
         }
         OpKind::Metadata { via: Via::Direct, cb } => guarded(|| {
@@ -368,7 +436,7 @@ pub fn perform(parser: &CooklangParser, input: &str, op: &Op, faults: bool, dept
                 None => parser.parse_metadata(input),
                 Some(_) => parser.parse_metadata_with_options(input, make_options(cb)),
             };
-            fp_result(&r, input)
+            fp_result(&r, input, parser.converter())
         }),
         OpKind::Metadata { via: Via::Adapter, cb } => {
             adapter_used = true;
@@ -381,7 +449,7 @@ pub fn perform(parser: &CooklangParser, input: &str, op: &Op, faults: bool, dept
                 };
                 let r = analysis::parse_events(it, input, parser.extensions(), parser.converter(), make_options(cb))
                     .map(|c| c.metadata);
-                fp_result(&r, input)
+                fp_result(&r, input, parser.converter())
             })
         }
         OpKind::Events { meta, take } => guarded(|| {
@@ -415,7 +483,8 @@ pub fn perform(parser: &CooklangParser, input: &str, op: &Op, faults: bool, dept
         }),
         OpKind::ParseFree => guarded(|| {
             let r = cooklang::parse(input);
-            fp_result(&r, input)
+            // (the key of this operation ignores `parser`: read the accessors with the default converter)
+            fp_result(&r, input, &Converter::default())
         }),
         OpKind::BuildAst => guarded(|| {
             let it = Adapter {
@@ -425,7 +494,7 @@ pub fn perform(parser: &CooklangParser, input: &str, op: &Op, faults: bool, dept
                 seen: &seen,
             };
             let r = cooklang::ast::build_ast(it);
-            fp_result(&r, input)
+            fp_result(&r, input, parser.converter())
         }),
         OpKind::ScaleConvert { factor, system } => guarded(|| {
             let r = parser.parse(input);
@@ -536,7 +605,9 @@ fn check(env: &Env, op: &Op, obsd: &Observed, phase: &str, faults: bool) {
     let key = full_key(sc, op);
     // O2: what the adapter delivered is a prefix of the reference event stream
     if let (Some(ev), Some(meta)) = (&obsd.adapter_events, op.uses_adapter().or(matches!(op.kind, OpKind::BuildAst).then_some(false))) {
-        if let Some(reference) = env.refs.get(&events_key(sc, op, meta)) {
+        // (a pull parser that itself panics on this input has no reference event stream: the panic
+        // text is the - consistent - outcome, and there is nothing to be a prefix of)
+        if let Some(reference) = env.refs.get(&events_key(sc, op, meta)).filter(|r| !r.starts_with("LIBRARY-PANIC")) {
             let ref_hashes: Vec<u64> = reference.lines().map(|l| fnv(format!("Some({l})").as_bytes())).collect();
             let ok = ev.len() <= ref_hashes.len() && ev.iter().zip(&ref_hashes).all(|(a, b)| a == b);
             if !ok {
@@ -551,7 +622,13 @@ fn check(env: &Env, op: &Op, obsd: &Observed, phase: &str, faults: bool) {
     match &op.kind {
         OpKind::Events { meta, take: Some(_) } => {
             if let Some(reference) = env.refs.get(&events_key(sc, op, *meta)) {
-                if !reference.starts_with(got.as_str()) {
+                // the complete stream ends in a library panic: an abandoned prefix either stops before
+                // it (then there is no complete reference to compare with) or panics the same way
+                if reference.starts_with("LIBRARY-PANIC") {
+                    if got.starts_with("LIBRARY-PANIC") && got != reference {
+                        sim::violation("mismatch", &key, phase, first_diff(reference, got));
+                    }
+                } else if !reference.starts_with(got.as_str()) {
                     sim::violation("prefix", &key, phase, first_diff(reference, got));
                 }
             }
